@@ -299,10 +299,192 @@ theorem rank_spec (b : Bitmap) (h : b.WF) (v : Nat) (hv : v < 4294967296) :
   have _ := hv
   exact rank_eq v b h.dir
 
+/-! ### `range_cardinality` -/
+
+/-- the loop of `range_cardinality` adds the rank of the end point in the remaining containers -/
+theorem rangeCardLoop_rank (en : Nat) : ∀ (b : Bitmap) (acc : Nat),
+    rangeCardLoop (hi16 en) (lo16 en) b acc = acc + rank b en := by
+  intro b
+  induction b with
+  | nil => intro acc; simp [rangeCardLoop, rank, search_nil, len_nil]
+  | cons c cs ih =>
+    intro acc
+    unfold rangeCardLoop
+    by_cases h1 : c.key < hi16 en
+    · rw [if_pos h1, ih, rank_cons_lt c cs en h1]; omega
+    · rw [if_neg h1]
+      by_cases h2 : c.key = hi16 en
+      · rw [if_pos h2, rank_cons_eq c cs en h2]
+      · rw [if_neg h2, rank_cons_gt c cs en (by omega)]; rfl
+
+theorem count_split (l : List Nat) (a z : Nat) (h : a ≤ z) :
+    (l.filter (fun x => decide (a ≤ x) && decide (x ≤ z))).length + (l.filter (· < a)).length
+      = (l.filter (· ≤ z)).length := by
+  induction l with
+  | nil => rfl
+  | cons y l ih =>
+    simp only [List.filter_cons]
+    by_cases h1 : y < a
+    · have h2 : ¬ a ≤ y := by omega
+      have h3 : y ≤ z := by omega
+      simp [h1, h2, h3]; omega
+    · have h2 : a ≤ y := by omega
+      by_cases h3 : y ≤ z
+      · simp [h1, h2, h3]; omega
+      · simp [h1, h2, h3]; omega
+
+/-- the body of `range_cardinality` once the range has been converted to `start ..= en` -/
+def rcOk (b : Bitmap) (start en : Nat) : Nat :=
+  let sk := hi16 start; let sl := lo16 start
+  let ek := hi16 en; let el := lo16 en
+  match search b sk with
+  | (true, i) =>
+    match b[i]? with
+    | some c =>
+      let card := if sk = ek then c.rank el else c.len
+      let card := if sl ≠ 0 then card - c.rank (sl - 1) else card
+      rangeCardLoop ek el (b.drop (i + 1)) card
+    | none => 0
+  | (false, i) => rangeCardLoop ek el (b.drop i) 0
+
+theorem rangeCardinality_eq (b : Bitmap) (lo hi : Bound) :
+    rangeCardinality b lo hi =
+      match convertRange u32Max lo hi with
+      | .error _ => 0
+      | .ok (s, e) => rcOk b s e := rfl
+
+/-- what the first container (the one holding `start`) contributes -/
+def cCard (c : Container) (start en : Nat) : Nat :=
+  let card := if hi16 start = hi16 en then c.rank (lo16 en) else c.len
+  if lo16 start ≠ 0 then card - c.rank (lo16 start - 1) else card
+
+theorem rcOk_cons_lt (c : Container) (cs : Bitmap) (st en : Nat) (h1 : c.key < hi16 st) :
+    rcOk (c :: cs) st en = rcOk cs st en := by
+  unfold rcOk
+  simp only []
+  rw [search_cons]
+  simp only [h1, if_true]
+  cases hs : search cs (hi16 st) with
+  | mk f loc => cases f <;> simp
+
+theorem rcOk_cons_eq (c : Container) (cs : Bitmap) (st en : Nat) (h2 : c.key = hi16 st) :
+    rcOk (c :: cs) st en = rangeCardLoop (hi16 en) (lo16 en) cs (cCard c st en) := by
+  unfold rcOk cCard
+  simp only []
+  rw [search_cons]
+  simp [h2]
+
+theorem rcOk_cons_gt (c : Container) (cs : Bitmap) (st en : Nat) (h3 : hi16 st < c.key) :
+    rcOk (c :: cs) st en = rangeCardLoop (hi16 en) (lo16 en) (c :: cs) 0 := by
+  unfold rcOk
+  simp only []
+  rw [search_cons]
+  have h1 : ¬ c.key < hi16 st := by omega
+  have h2 : (c.key == hi16 st) = false := by simp; omega
+  simp [h1, h2]
+
+theorem cCard_eq (c : Container) (hinv : c.store.Inv) (st en : Nat) (hse : st ≤ en)
+    (hk : c.key = hi16 st) :
+    cCard c st en = (c.elems.filter (fun x => decide (st ≤ x) && decide (x ≤ en))).length := by
+  have hb := cElems_bounds c hinv
+  -- the first summand is the number of values `≤ en`
+  have hR : (if hi16 st = hi16 en then c.rank (lo16 en) else c.len)
+      = (c.elems.filter (· ≤ en)).length := by
+    by_cases he : hi16 st = hi16 en
+    · rw [if_pos he, cRank_eq c hinv en (by omega)]
+    · rw [if_neg he, cLen_eq' c hinv]
+      have : c.elems.filter (· ≤ en) = c.elems := by
+        rw [List.filter_eq_self]
+        intro y hy
+        have := hb y hy
+        simp only [decide_eq_true_eq]
+        unfold hi16 at hk he; omega
+      rw [this]
+  -- the subtracted one is the number of values `< st`
+  have hL : (if lo16 st ≠ 0 then c.rank (lo16 st - 1) else 0) = (c.elems.filter (· < st)).length := by
+    by_cases hz : lo16 st ≠ 0
+    · rw [if_pos hz]
+      have e1 : lo16 st - 1 = lo16 (st - 1) := by unfold lo16 at *; omega
+      have e2 : c.key = hi16 (st - 1) := by unfold hi16 lo16 at *; omega
+      rw [e1, cRank_eq c hinv (st - 1) e2]
+      congr 1
+      apply List.filter_congr
+      intro y _
+      rw [Bool.eq_iff_iff]
+      simp only [decide_eq_true_eq]
+      unfold lo16 at hz; omega
+    · rw [if_neg hz]
+      have : c.elems.filter (· < st) = [] := by
+        rw [List.filter_eq_nil_iff]
+        intro y hy
+        have := hb y hy
+        simp only [decide_eq_true_eq]
+        unfold hi16 at hk; unfold lo16 at hz; omega
+      rw [this]; rfl
+  have hsplit := count_split c.elems st en hse
+  unfold cCard
+  simp only []
+  by_cases hz : lo16 st ≠ 0
+  · rw [if_pos hz] at hL ⊢
+    rw [hR, hL]; omega
+  · rw [if_neg hz] at hL ⊢
+    rw [hR]; omega
+
+theorem rcOk_eq (st en : Nat) (hse : st ≤ en) : ∀ (b : Bitmap), b.Dir →
+    rcOk b st en = ((elems b).filter (fun x => decide (st ≤ x) && decide (x ≤ en))).length := by
+  intro b
+  induction b with
+  | nil => intro _; simp [rcOk, search_nil, rangeCardLoop, elems]
+  | cons c cs ih =>
+    intro hdir
+    have hinv := hdir.inv (List.mem_cons_self ..)
+    have hb1 := cElems_bounds c hinv
+    have hb2 := elems_tail_bounds hdir
+    by_cases h1 : c.key < hi16 st
+    · rw [rcOk_cons_lt c cs st en h1, ih hdir.tail, elems_cons, List.filter_append, List.length_append]
+      have : c.elems.filter (fun x => decide (st ≤ x) && decide (x ≤ en)) = [] := by
+        rw [List.filter_eq_nil_iff]
+        intro y hy
+        have := hb1 y hy
+        simp only [Bool.and_eq_true, decide_eq_true_eq]
+        unfold hi16 at h1; omega
+      rw [this]; simp
+    · by_cases h2 : c.key = hi16 st
+      · rw [rcOk_cons_eq c cs st en h2, rangeCardLoop_rank, rank_eq en cs hdir.tail,
+          cCard_eq c hinv st en hse h2, elems_cons, List.filter_append, List.length_append]
+        congr 2
+        apply List.filter_congr
+        intro y hy
+        have := hb2 y hy
+        rw [Bool.eq_iff_iff]
+        simp only [Bool.and_eq_true, decide_eq_true_eq]
+        unfold hi16 at h2; omega
+      · rw [rcOk_cons_gt c cs st en (by omega), rangeCardLoop_rank, rank_eq en _ hdir, Nat.zero_add]
+        congr 1
+        apply List.filter_congr
+        intro y hy
+        rw [elems_cons, List.mem_append] at hy
+        rw [Bool.eq_iff_iff]
+        simp only [Bool.and_eq_true, decide_eq_true_eq]
+        unfold hi16 at h1 h2
+        rcases hy with hy | hy
+        · have := hb1 y hy; omega
+        · have := hb2 y hy; omega
+
 theorem rangeCardinality_spec (b : Bitmap) (h : b.WF) (lo hi : Bound)
     (hlo : Bound.le u32Max lo) (hhi : Bound.le u32Max hi) :
     rangeCardinality b lo hi = Spec.rangeCardinality u32Max (elems b) lo hi := by
-  sorry
+  rw [rangeCardinality_eq]
+  unfold Spec.rangeCardinality
+  cases hc : convertRange u32Max lo hi with
+  | error e =>
+    rw [convertRange_error u32Max lo hi hlo hhi e hc]
+  | ok r =>
+    obtain ⟨st, en⟩ := r
+    have hiv := convertRange_ok u32Max lo hi hlo hhi st en hc
+    rw [hiv]
+    obtain ⟨hse, _, _⟩ := Spec.interval_some u32Max lo hi st en hiv
+    exact rcOk_eq st en hse b h.dir
 
 theorem containsRange_spec (b : Bitmap) (h : b.WF) (lo hi : Bound)
     (hlo : Bound.le u32Max lo) (hhi : Bound.le u32Max hi) :
